@@ -144,19 +144,57 @@ def scale_token(sc):
     return "octave:%s" % common.fbits(sc["low_hz"])
 
 
+def scale_for(cfg):
+    """the scale object a configuration names.  With `scale_prev` the object was built with other parameters first and
+    its documented public attributes (`low_hz`, `slope_hz`) were then reassigned - a scale object is a plain mutable
+    value that callers share between banks; the layout must follow the parameters in force when the bank is built"""
+    sc = cfg["scale"]
+    prev = cfg.get("scale_prev")
+    if not prev:
+        return scale_obj(sc)
+    o = scale_obj(dict(sc, **prev))
+    o.hertz_to_scale(1000.0), o.scale_to_hertz(1.0)  # it has been used
+    for k, v in sc.items():
+        if k != "name":
+            setattr(o, k, v)
+    return o
+
+
+def poke_accessors(bank):
+    """what a caller may do with the values the read-only properties hand out: in-place arithmetic on an array, item
+    assignment on a list (tuples refuse).  None of it may reach the bank's own state."""
+    for name in ("centers_hz", "supports_hz", "supports", "centers_ang", "supports_ang"):
+        try:
+            v = getattr(bank, name)
+        except Exception:
+            continue
+        try:
+            if isinstance(v, np.ndarray):
+                v *= 0.001
+            elif isinstance(v, list) and v:
+                v[0] = v[-1]
+                v.reverse()
+        except Exception:
+            pass
+
+
 def build(cfg):
     from pydrobert.speech import filters
 
     k = cfg["kind"]
     kw = dict(num_filts=cfg["num_filts"], high_hz=cfg["high"], low_hz=cfg["low"], sampling_rate=cfg["rate"])
     if k == "tri":
-        return filters.TriangularOverlappingFilterBank(scale_obj(cfg["scale"]), analytic=cfg["analytic"], **kw)
-    if k == "fbank":
-        return filters.Fbank(analytic=cfg["analytic"], **kw)
-    if k == "gabor":
-        return filters.GaborFilterBank(scale_obj(cfg["scale"]), scale_l2_norm=cfg["l2"], erb=cfg["erb"], **kw)
-    return filters.ComplexGammatoneFilterBank(scale_obj(cfg["scale"]), order=cfg["order"], max_centered=cfg["max_centered"],
-                                              scale_l2_norm=cfg["l2"], erb=cfg["erb"], **kw)
+        b = filters.TriangularOverlappingFilterBank(scale_for(cfg), analytic=cfg["analytic"], **kw)
+    elif k == "fbank":
+        b = filters.Fbank(analytic=cfg["analytic"], **kw)
+    elif k == "gabor":
+        b = filters.GaborFilterBank(scale_for(cfg), scale_l2_norm=cfg["l2"], erb=cfg["erb"], **kw)
+    else:
+        b = filters.ComplexGammatoneFilterBank(scale_for(cfg), order=cfg["order"], max_centered=cfg["max_centered"],
+                                               scale_l2_norm=cfg["l2"], erb=cfg["erb"], **kw)
+    if cfg.get("poke_accessors"):
+        poke_accessors(b)
+    return b
 
 
 def cfg_line(cfg):
@@ -244,6 +282,18 @@ CORPUS = [
     dict(kind="tri", scale=dict(name="octave", low_hz=27.5), num_filts=11, high=4000.5, low=27.5, rate=8000, analytic=True),
     dict(kind="fbank", scale=dict(name="mel"), num_filts=5, high=5512.5, low=0.0, rate=11025, analytic=False),
     dict(kind="gabor", scale=dict(name="linear", low_hz=0.0, slope_hz=1.0), num_filts=8, high=4000.0, low=0.0, rate=8000, l2=False, erb=False),
+    # object histories: a scale object whose public parameters were reassigned after use (shared between banks) ...
+    dict(kind="tri", scale=dict(name="octave", low_hz=9.0), scale_prev=dict(low_hz=30.0), num_filts=8, high=2304.0, low=9.0, rate=8000, analytic=False),
+    dict(kind="gabor", scale=dict(name="octave", low_hz=30.0), scale_prev=dict(low_hz=9.0), num_filts=6, high=3800.0, low=30.0, rate=8000, l2=False, erb=False),
+    dict(kind="gammatone", scale=dict(name="octave", low_hz=55.0), scale_prev=dict(low_hz=20.0), num_filts=6, high=3800.0, low=60.0, rate=8000, l2=False, erb=False, order=4, max_centered=False),
+    dict(kind="tri", scale=dict(name="linear", low_hz=100.0, slope_hz=2.5), scale_prev=dict(low_hz=0.0, slope_hz=1.0), num_filts=7, high=3000.0, low=100.0, rate=8000, analytic=True),
+    dict(kind="gabor", scale=dict(name="linear", low_hz=0.0, slope_hz=0.5), scale_prev=dict(low_hz=50.0, slope_hz=3.0), num_filts=5, high=3500.0, low=20.0, rate=8000, l2=False, erb=True),
+    # ... and banks whose accessor results were modified in place by the caller before anything else is asked of them
+    dict(kind="tri", scale=dict(name="mel"), num_filts=6, high=3800.0, low=100.0, rate=8000, analytic=False, poke_accessors=True),
+    dict(kind="tri", scale=dict(name="bark"), num_filts=9, high=None, low=20.0, rate=16000, analytic=True, poke_accessors=True),
+    dict(kind="fbank", scale=dict(name="mel"), num_filts=6, high=3800.0, low=100.0, rate=8000, analytic=False, poke_accessors=True),
+    dict(kind="gabor", scale=dict(name="mel"), num_filts=6, high=3800.0, low=100.0, rate=8000, l2=False, erb=False, poke_accessors=True),
+    dict(kind="gammatone", scale=dict(name="mel"), num_filts=6, high=3800.0, low=100.0, rate=8000, l2=False, erb=False, order=4, max_centered=True, poke_accessors=True),
 ]
 
 
@@ -739,7 +789,8 @@ def replay(rp):
 
     case = dict(rp.get("case") or {})
     print(common.canon(case))
-    keys = ("kind", "scale", "num_filts", "high", "low", "rate", "analytic", "l2", "erb", "order", "max_centered")
+    keys = ("kind", "scale", "num_filts", "high", "low", "rate", "analytic", "l2", "erb", "order", "max_centered",
+            "scale_prev", "poke_accessors")
     cfg = {k: case[k] for k in keys if k in case}
     if "kind" not in cfg:
         print("not a configuration replay:", rp.get("kind"), rp.get("broken", "")[:3] if isinstance(rp.get("broken"), list) else "")
